@@ -55,4 +55,5 @@ int drv_sieve(void);
 int drv_world(void);
 int drv_pure(void);
 int drv_main(void);
+int drv_cfg(void);
 #endif
